@@ -221,6 +221,7 @@ type c17YCase struct {
 	Term  string     `json:"term"`
 	Via   string     `json:"via"`
 	Fault c17YFault  `json:"fault"`
+	BOM   bool       `json:"bom,omitempty"` // the stream starts with a byte order mark (which YAML allows)
 }
 
 var kC17Y = run.NewKind("c17.yaml", func(c *run.Ctx, t c17YCase) *run.Fail {
@@ -246,6 +247,14 @@ var kC17Y = run.NewKind("c17.yaml", func(c *run.Ctx, t c17YCase) *run.Fail {
 		p += len(l) + len(term)
 	}
 	p += col
+	if t.BOM {
+		if docStart+li == 0 {
+			c.Inconclusive("bom-on-the-fault-line") // how wide a terminal shows the mark is not ours to say
+			return nil
+		}
+		whole = append([]byte("\ufeff"), whole...)
+		p += 3
+	}
 	dir, cleanup := c17Dir()
 	if c.Replay {
 		c.Logf("input kept in %s", dir)
@@ -355,6 +364,9 @@ var kC17Y = run.NewKind("c17.yaml", func(c *run.Ctx, t c17YCase) *run.Fail {
 				where, rep.Line, docStart+1, hi, run.Clip(c17Stderr(res.Stderr)))}
 		}
 		T := strings.ReplaceAll(all[rep.Line-1], "\t", " ") // tabs are shown as single spaces (see c17Judge)
+		if t.BOM && rep.Line == 1 {
+			T = "\ufeff" + T // the mark belongs to the first line
+		}
 		okPos := false
 		for s := 0; s+len(rep.Excerpt) <= len(T); s++ {
 			if T[s:s+len(rep.Excerpt)] != rep.Excerpt {
@@ -409,7 +421,7 @@ func c17BodyYAML(c *run.Ctx) {
 		case 3:
 			doc.Lines = 200 + r.IntN(200)
 		}
-		base := c17YCase{Doc: doc, Term: c17Terms[r.IntN(3)], Via: vias[(k+k/4)%4], Tail: r.IntN(3) == 0}
+		base := c17YCase{Doc: doc, Term: c17Terms[r.IntN(3)], Via: vias[(k+k/4)%4], Tail: r.IntN(3) == 0, BOM: r.IntN(6) == 0}
 		for n := r.IntN(4); n > 0; n-- {
 			pre := c17YSpec{Seed: r.Uint64() >> 11, Wide: r.IntN(2) == 0, Lines: 1 + r.IntN(30)}
 			if r.IntN(4) == 0 {
